@@ -44,6 +44,9 @@ func main() {
 		refPath  = flag.String("reference", "reference/inventory.json", "reference inventory (names of the reviewed tree) used to see through renames")
 	)
 	flag.Parse()
+	if exe, err := os.Executable(); err == nil {
+		registerCorpora(filepath.Dir(filepath.Dir(exe))) // <verif>/bin/fwdcheck -> <verif>/seeded, <verif>/refactorings
+	}
 	if t := os.Getenv("VERIF_TIER"); t == "quick" || t == "thorough" {
 		*tier = t
 	}
